@@ -15842,6 +15842,10 @@ func (p *PathAttributePmsiTunnel) Serialize(options ...*MarshallingOption) ([]by
 		return nil, err
 	}
 	buf = append(buf, tbuf...)
+	if p.TunnelID == nil {
+		// the attribute failed to decode (it is handed back together with the error)
+		return nil, NewMessageError(BGP_ERROR_UPDATE_MESSAGE_ERROR, BGP_ERROR_SUB_MALFORMED_ATTRIBUTE_LIST, nil, "PMSI tunnel attribute has no tunnel identifier")
+	}
 	tbuf, err = p.TunnelID.Serialize()
 	if err != nil {
 		return nil, err
@@ -15861,6 +15865,10 @@ func (p *PathAttributePmsiTunnel) String() string {
 }
 
 func (p *PathAttributePmsiTunnel) MarshalJSON() ([]byte, error) {
+	tunnelID := ""
+	if p.TunnelID != nil {
+		tunnelID = p.TunnelID.String()
+	}
 	return json.Marshal(struct {
 		Type               BGPAttrType `json:"type"`
 		IsLeafInfoRequired bool        `json:"is-leaf-info-required"`
@@ -15872,7 +15880,7 @@ func (p *PathAttributePmsiTunnel) MarshalJSON() ([]byte, error) {
 		IsLeafInfoRequired: p.IsLeafInfoRequired,
 		TunnelType:         uint8(p.TunnelType),
 		Label:              p.Label,
-		TunnelID:           p.TunnelID.String(),
+		TunnelID:           tunnelID,
 	})
 }
 
